@@ -75,6 +75,8 @@ pub mod verif_c09;
 pub use connection::verif_c10;
 #[cfg(libp2p_verif)]
 pub mod verif_c11;
+#[cfg(libp2p_verif)]
+pub mod verif_c50;
 
 /// Bundles all symbols required for the [`libp2p_swarm_derive::NetworkBehaviour`] macro.
 #[doc(hidden)]
